@@ -120,13 +120,13 @@ def ite_val(c, a, b):
 
 # ----------------------------------------------------------------------------------------------------- state
 class St:
-    __slots__ = ("pc", "locals", "storage", "transient", "trace", "defs")
+    __slots__ = ("pc", "locals", "storage", "transient", "trace", "defs", "ncalls")
 
-    def __init__(self, pc, locals_, storage, transient, trace, defs):
-        self.pc, self.locals, self.storage, self.transient, self.trace, self.defs = pc, locals_, storage, transient, trace, defs
+    def __init__(self, pc, locals_, storage, transient, trace, defs, ncalls=0):
+        self.pc, self.locals, self.storage, self.transient, self.trace, self.defs, self.ncalls = pc, locals_, storage, transient, trace, defs, ncalls
 
     def copy(self, **kw):
-        s = St(self.pc, dict(self.locals), self.storage, self.transient, self.trace, self.defs)
+        s = St(self.pc, dict(self.locals), self.storage, self.transient, self.trace, self.defs, self.ncalls)
         for k, v in kw.items():
             setattr(s, k, v)
         return s
@@ -464,6 +464,8 @@ class Interp:
             return frontier
         if isinstance(node, vy.Call):
             return self.call(st, node)
+        if isinstance(node, (vy.ExtCall, vy.StaticCall)):
+            return self.extcall(st, node)
         raise Unsupported(f"expression {type(node).__name__}")
 
     def eval_pure(self, st, node):
@@ -713,6 +715,99 @@ class Interp:
             q = a / D
             return st, z3.If(z3.And(a > 0, z3.SRem(a, D) != 0), q + 1, q)
         raise Unsupported(f"builtin {name}")
+
+    # ------------------------------------------------------------------ external calls
+    def extcall(self, st, node):
+        """`extcall I(t).f(args, value=, gas=, skip_contract_check=, default_return_value=)` / `staticcall ...`
+        (docs/interfaces.rst, built-in keyword arguments): the callee is an adversary - success flag, return-data size and
+        bytes are unconstrained symbols, named as the bytecode denotation names them (the k-th outgoing call of the path).
+          * STATICCALL for view/pure interface functions, CALL with the requested value otherwise;
+          * calldata = selector ++ abi_encode(args);
+          * a function without return type (or with default_return_value) requires code at the target unless
+            skip_contract_check; a failed call reverts with the callee's return data;
+          * return data shorter than the static size of the return type reverts; every returned word must be canonical;
+            exactly empty return data yields default_return_value when given."""
+        vy = self.vy
+        call = node.value
+        fn_t = call.func._metadata["type"]
+        tgt_call = call.func.value  # I(t)
+        if not (isinstance(tgt_call, vy.Call) and len(tgt_call.args) == 1):
+            raise Unsupported("external call target form")
+        out = []
+        for s1, to in self.eval(st, tgt_call.args[0]):
+            frontier = [(s1, [])]
+            for a in call.args:
+                nxt = []
+                for s, acc in frontier:
+                    for s2, v in self.eval(s, a):
+                        nxt.append((s2, acc + [v]))
+                frontier = nxt
+            for s2, args in frontier:
+                kws = {}
+                s3 = s2
+                for kw in call.keywords:
+                    if kw.arg == "skip_contract_check":
+                        kws[kw.arg] = bool(kw.value.get_folded_value().value)
+                        continue
+                    (s3, v), = self.eval_pure(s3, kw.value)
+                    kws[kw.arg] = v
+                out += self._do_extcall(s3, fn_t, to, args, kws, [self.typ(a) for a in call.args])
+        return out
+
+    def _do_extcall(self, st, fn_t, to, args, kws, arg_types):
+        from vyper.semantics.types.function import StateMutability
+
+        env = self.env
+        words = []
+        for t, v in zip(arg_types, args):
+            if not is_word(t) and members(t) is None:
+                raise Unsupported("dynamic external-call argument")
+            words += flatten(t, v)
+        sig = fn_t.name + "(" + ",".join(t.abi_type.selector_name() for t in arg_types) + ")"
+        mem = ByteMem(z3.K(W, z3.BitVecVal(0, 8)))
+        mem = mem.store(BV(0), BV(keccak4(sig) << 224))
+        for i, w in enumerate(words):
+            mem = mem.store(BV(4 + 32 * i), w)
+        payload = {"len": BV(4 + 32 * len(words)), "off": BV(0), "mem": mem}
+        static = fn_t.mutability in (StateMutability.VIEW, StateMutability.PURE)
+        rt = fn_t.return_type
+        skip = kws.get("skip_contract_check", False)
+        has_default = "default_return_value" in kws
+        if rt is None and not skip:
+            st = self.require(st, env.extcodesize(to) != 0)
+        k = f"!{st.ncalls + 1}{env.tag}"
+        ok = z3.Bool("call_ok" + k)
+        rsize = z3.BitVec("call_retsize" + k, 256)
+        rdata = z3.Array("call_retdata" + k, W, Mx.B8)
+        value = BV(0) if static else kws.get("value", BV(0))
+        ev = ("staticcall" if static else "call", ("requested-gas", kws["gas"]) if "gas" in kws else None, to, value, payload)
+        st = st.copy(trace=st.trace + (ev,), ncalls=st.ncalls + 1)
+        if not static and env.reentrancy_havoc:
+            st = st.copy(storage=z3.Array("storage_after_call" + k, W, W), transient=z3.Array("transient_after_call" + k, W, W))
+        # failure: the callee's revert data is propagated unchanged
+        self.outcomes.append(Outcome("revert", st.assume(z3.Not(ok)), raw={"len": rsize, "off": BV(0), "mem": ByteMem(rdata)}))
+        st = st.assume(ok)
+        if rt is None:
+            return [(st, None)]
+        if not is_word(rt) and members(rt) is None:
+            raise Unsupported("dynamic external-call return type")
+        n = n_words(rt)
+        outs = []
+        if has_default:
+            # exactly empty return data: the default is used, provided there is code at the target (an address without code
+            # "returns" nothing) unless skip_contract_check
+            s0 = st.assume(rsize == 0)
+            if not skip:
+                s0 = self.require(s0, env.extcodesize(to) != 0)
+            outs.append((s0, kws["default_return_value"]))
+            st = st.assume(rsize != 0)
+        st = self.require(st, z3.UGE(rsize, BV(32 * n)))
+        ws = [z3.Concat(*[z3.Select(rdata, BV(32 * i + j)) for j in range(32)]) for i in range(n)]
+        for lt, w in zip(_leaf_types(rt), ws):
+            st = self.require(st, canonical(lt, w))
+        v, _ = unflatten(rt, ws)
+        outs.append((st, v))
+        return outs
 
     # ------------------------------------------------------------------ statements
     def run_function(self, st, fdef, args):
